@@ -618,7 +618,8 @@ class BuiltinsMixin(object):
             if isinstance(a, Sym) and a.typ is not None:
                 return False
             if isinstance(a, App) and a.op in ('fmt', 'concat', 'str',
-                                               'join', 'strrep'):
+                                               'join', 'strrep', 'range',
+                                               'len', 'cmp', 'not'):
                 return False
             return None
         if isinstance(a, Obj) and isinstance(b, Obj):
@@ -1164,6 +1165,17 @@ class BuiltinsMixin(object):
         r = self.hooks.call(self, fv, args, kw, path, node)
         if r is not None:
             return r
+        if isinstance(fv, FRef) and getattr(fv.fi, 'owner', None) is not None \
+                and args and isinstance(fv.node, ast.FunctionDef) and \
+                not _is_static(fv.node) and not _is_classmethod(fv.node):
+            # Class.method(obj, ..) with obj an instance of Class: the rules'
+            # primitives are written for the bound form obj.method(..)
+            ci = self.class_of(args[0], path)
+            if isinstance(ci, ClassInfo) and ci.is_subclass_of(fv.fi.owner):
+                r = self.hooks.call(self, Bound(args[0], fv), args[1:], kw,
+                                    path, node)
+                if r is not None:
+                    return r
         if any(isinstance(a, App) and a.op == 'star' for a in args):
             # f(*xs) with xs a list / tuple whose members are all known:
             # the call with those members
